@@ -235,6 +235,20 @@ CHECKS = {
              'UPLOADED; getHost() reports Tor\'s service id and the public port; stopListening() closes the listener; on any '
              'failure listen() errbacks with the injected error and no listener stays open.',
         note='Trusted: mc/world.py FakeReactor/FakePort, mc/simtor.py, refs/addonion.py, refs/kvline.py.'),
+    'C19': dict(
+        engine=E2, design='DESIGN.md section 4 / C19',
+        technique='enumeration of every causally consistent linearisation of the launch environment events (stdout, stderr, '
+                  'control connection, acknowledgements, bootstrap events, timeout, process end) on the real controller.launch() '
+                  'with a fake reactor, a real TorControlProtocol and a simulated Tor',
+        text='11 (quick) / 32 (thorough) parameter sets - stdout marker whole, split at 4 / all 23 offsets, or absent; control '
+             'connection established or refused; TAKEOWNERSHIP acknowledged or rejected; exit code 0 / 1 / signal; temporary or '
+             'caller-supplied data directory; kill_on_stderr - x every linearisation of {stdout, stderr, connect, '
+             'authentication+bootstrap+SETEVENTS, TAKEOWNERSHIP answer, RESETCONF answer, BOOTSTRAP 50 / 100 / 100 again, timeout, '
+             'process end} consistent with causality (~4.9k / ~7.6k orders). After every step: the launch result fired at most '
+             'once, success only after PROGRESS=100 on the authenticated connection and never after the process ended or the '
+             'timeout elapsed; on timeout the process got TERM; ownership requested in every success; temp dir gone after '
+             'processEnded; caller dir intact.',
+        note='Trusted: FakeReactor.spawnProcess / Clock, mc/simtor.py. After the process ended only the timeout can still fire.'),
 }
 
 PENDING = {}
